@@ -36,7 +36,9 @@ MUTABLE_ARGS = {
     "fft_settings": lambda rng: [dict(norm="ortho"), dict(n=1024), dict(n=2048, norm="backward")][rng.randint(3)],
     # integer arrays (like the default), lists, and FRACTIONAL azimuths as array and as list
     "azimuths_in_degrees": lambda rng: [np.arange(0, 180, int(rng.choice([45, 60]))), [0.0, 30.0, 90.0], np.array([0.0, 22.5, 45.0, 67.5, 112.5]),
-                                        [0.25, 30.5, 91.75]][rng.randint(4)],
+                                        [0.25, 30.5, 91.75],
+                                        # the user's ORDER is content too (a list that starts mid-circle, one with a repeated azimuth)
+                                        [60.0, 0.0, 120.0, 30.0], np.array([90.0, 30.0, 30.0, 150.0])][rng.randint(6)],
 }
 
 
@@ -431,6 +433,7 @@ def main():
     # lists vs arrays, tuples) through save / load / load onto a default object
     import inspect
     sv = [("azimuths_in_degrees", np.array([0.0, 22.5, 45.0, 67.5, 112.5])), ("azimuths_in_degrees", [0.25, 30.5, 91.75]),
+          ("azimuths_in_degrees", [60.0, 0.0, 120.0, 30.0]),
           ("filter_corner_frequencies_in_hz", [0.25, 12.5]), ("window_type_and_width", ["tukey", 0.35]),
           # scalar attributes, in particular values that are "falsy" in Python (0.0, None, False) where the default is not
           ("azimuth_in_degrees", 0.0), ("ppth_percentile_for_rotdpp_computation", 0.0), ("window_length_in_seconds", None),
